@@ -661,7 +661,14 @@ async def _scenario(case, loop, run):
             local_tracks.append(t)
             a.addTrack(t)
     if dc >= 1:
-        a.createDataChannel("chat")
+        chat = a.createDataChannel("chat")
+
+        @chat.on("open")
+        def _burst():
+            # data in flight while close() arrives: SCTP timers are armed and re-armed (nothing may survive close())
+            for _ in range(40):
+                if chat.readyState == "open":
+                    chat.send(b"x" * 1100)
     if dc >= 2:
         a.createDataChannel("neg", negotiated=True, id=7)
         b.createDataChannel("neg", negotiated=True, id=7)
@@ -837,6 +844,17 @@ async def _scenario(case, loop, run):
     run.recording = False
     left = leftovers()
     left_names = sorted(getattr(t.get_coro(), "__qualname__", str(t.get_coro())) for t in left)
+    # timers armed by aiortc objects that survived close() (call_later handles nobody cancelled)
+    stray_timers = []
+    if status == 0 and all(close_tasks[p] for p in (0, 1)):
+        for h in list(getattr(loop, "_scheduled", [])):
+            cb = getattr(h, "_callback", None)
+            owner = getattr(cb, "__self__", None)
+            if h.cancelled() or owner is None:
+                continue
+            if (getattr(type(owner), "__module__", "") or "").startswith("aiortc"):
+                stray_timers.append("timer:" + getattr(cb, "__qualname__", repr(cb)))
+    left_names = left_names + sorted(stray_timers)
     threads = sorted(t.name for t in threading.enumerate() if t.name.endswith("-decoder"))
     obs = []
     for p in (0, 1):
@@ -868,7 +886,7 @@ async def _scenario(case, loop, run):
     detail = {"close_exc": close_exc, "left": left_names, "threads": threads, "events_after": run.events_after, "nego": nego_info,
               "states": [[pc.signalingState, pc.iceConnectionState, pc.connectionState] for pc in pcs]}
     return {
-        "status": status, "late": late, "obs": obs, "tasks_left": len(left), "threads_left": len(threads),
+        "status": status, "late": late, "obs": obs, "tasks_left": len(left) + len(stray_timers), "threads_left": len(threads),
         "close_ms": close_ms, "skip": skip, "detail": detail,
         "configs": [_config(run, p) for p in (0, 1)],
         "snaps": [_blank_unused(_snapshot(run, p), _referenced(run, p)) for p in (0, 1)],
